@@ -20,12 +20,24 @@ import (
 	"fmt"
 	"io"
 	"log"
+	"os"
 	"testing"
+
+	"github.com/gopcua/opcua/debug"
 
 	"verif/pkg/ev"
 )
 
-func TestMain(m *testing.M) { log.SetOutput(io.Discard); ev.Main(m) }
+func TestMain(m *testing.M) {
+	log.SetOutput(io.Discard)
+	if os.Getenv("VERIF_C26_DEV_DEBUG") != "" {
+		// development only: gopcua's debug log on stdout
+		log.SetOutput(os.Stdout)
+		log.SetFlags(log.Lmicroseconds)
+		debug.Enable = true
+	}
+	ev.Main(m)
+}
 
 var rec = ev.For("C26", "(a) TestSurvival: rapid-drawn stacks of 1-3 subscriptions x 1-4 monitored items (publishing interval 50-100 ms) on variables of an in-process gopcua server behind a fault proxy, a side writer changing every variable every ~20 ms, 1-3 faults (proxy resets all connections = channel loss with the session kept / the session is closed on the server from a side channel / the proxy is handed to a fresh server instance = restart) at drawn moments; non-trivial = every item had delivered written values before the first fault and the client went through a reconnect; (b) TestAcks: rapid-drawn publish histories of 4-40 responses for 1-3 subscriptions (data change with in- and out-of-order sequence numbers, keep-alive, ServiceFault, PublishResponse with a bad service result, dropped request; per-acknowledgement results Good / BadSequenceNumberUnknown / BadSubscriptionIdInvalid / other Bad, result count right or wrong; session kept or lost and subscriptions transferred or not on the reconnects the faults cause); non-trivial = at least one notification was delivered and at least one acknowledgement was captured; distinct by hash of the drawn case")
 
